@@ -15,7 +15,7 @@ PROP = dict(
         "ntp_proto::packet::NtpPacket::{deserialize, valid_server_response, is_kiss*, stratum, mode, version}",
         "ntp_proto::source::ProtocolVersion::is_expected_incoming_version",
     ],
-    bounds=_bounds48 + "; quick: octet 0 in {v4 server/client/broadcast, v3 server/client, v5} (other harnesses: {v4 server, v4 client, v3 server, v5}); thorough: v3/v4 x 8 modes, v4 client/server with LI=3, v5, versions 0,1,2,6,7 (24 values) and the 76-byte NTPv5 template (48 symbolic header octets, parse-deciding octets 0,12,14,15 dispatched over 4 / 10 literal combinations, concrete draft-identification field incl. one wrong draft text)",
+    bounds=_bounds48 + "; quick: octet 0 in {v4 server/client/broadcast, v3 server/client, v5} (other harnesses: {v4 server, v4 client, v3 server, v5}); thorough adds v4 x 8 modes, v4 server with LI=3, v3 broadcast, versions 2 and 7 and the 76-byte NTPv5 template (48 symbolic header octets, parse-deciding octets 0,12,14,15 dispatched over 4 literal combinations (server: synchronized / auth-NAK flag, request mode, wrong draft text), concrete draft-identification field incl. one wrong draft text)",
     outside="NTS sources and unique identifiers (C07); packets with extension fields other than the NTPv5 draft identification, MACs, lengths other than 48 / 76 bytes; octet-0 values outside the dispatched lists (the `all` list of 256 values exists but costs ~10 s of symbolic execution per value); histories longer than two packets (covered inductively: acceptance requires a pending id and clears it)",
     assumptions=[
         "remote_min_poll_interval <= 126 (see C09)",
@@ -29,9 +29,8 @@ PROP = dict(
         H(NS, "c08", "c08_accept_b", "as c08_accept for octet 0 in {0x1C,0x1B,0x2C} (v3 server / client, v5)", timeout=600),
         H(NS, "c08", "c08_replay", "in the state an acceptance leaves behind (no pending request) no 48-byte packet is measured or changes the source; with c08_accept (acceptance needs and clears the pending id, rejection keeps it) this gives at most one pair per request", timeout=600),
         H(NS, "c08", "c08_request", "the id the timer stores is the one in the request it sends, deadline = now + poll window (v4 family)", timeout=600),
-        H(NS, "c08", "c08_accept_full", "as c08_accept, 24 octet-0 values", tier="thorough"),
+        H(NS, "c08", "c08_accept_full", "as c08_accept, 12 octet-0 values: v4 in all eight modes, v4 server with LI=3, v3 broadcast, versions 2 and 7", tier="thorough"),
         H(NS, "c08", "c08_accept_v5", "as c08_accept for the 76-byte NTPv5 template (client cookie)", tier="thorough"),
-        H(NS, "c08", "c08_accept_v5_full", "as c08_accept_v5, 10 header combinations (adds no flags, malformed mode, timescale 3 + interleaved, LI=3, timescale 4, reserved flag bit)", timeout_thorough=2400, tier="thorough"),
         H(NS, "c08", "c08_replay_v5", "c08_replay for the NTPv5 template", tier="thorough"),
     ],
 )
